@@ -58,8 +58,8 @@ ScaleH(ms, f) == [i \in Idx(ms) |-> [ms[i] EXCEPT !.h = @ * f]]
 CandOf(o)     == Cand(members, o.filter)
 \* temperatures that contribute to the temperature of nuclide k (see header: atoms, else holders, else nothing)
 TempSources(cs, k) ==
-    LET withAtoms == {<<i, c>> \in Idx(cs) \X HoldersOf(k) : cs[i].n[c][k] > 0}
-        holders   == Idx(cs) \X HoldersOf(k)
+    LET withAtoms == {<<i, c>> \in Idx(cs) \X Comps : cs[i].n[c][k] > 0}
+        holders   == {<<i, c>> \in Idx(cs) \X Comps : Held(cs[i], c, k)}
         src       == IF withAtoms # {} THEN withAtoms ELSE holders
     IN IF src = {} THEN {RZero} ELSE {RInt(cs[p[1]].t[p[2]]) : p \in src}
 BurnSources(cs, rep) ==
@@ -90,8 +90,9 @@ CommonValue ==
             /\ R.mode # "block" => \A c \in Comps : \A k \in Nucs :
                    (\A i \in Idx(cs) : cs[i].n[c][k] = cs[1].n[c][k]) => R.cdens[c][k] = RInt(cs[1].n[c][k])
             /\ R.ctemp # <<>> => \A c \in Comps : (\A i \in Idx(cs) : cs[i].t[c] = cs[1].t[c]) => R.ctemp[c] = RInt(cs[1].t[c])
-            /\ R.ntemp # <<>> => \A k \in Nucs : (\A i \in Idx(cs) : \A c \in HoldersOf(k) : cs[i].t[c] = cs[1].t[CHOOSE d \in HoldersOf(k) : TRUE])
-                   => (HoldersOf(k) # {} => R.ntemp[k] = RInt(cs[1].t[CHOOSE d \in HoldersOf(k) : TRUE]))
+            /\ R.ntemp # <<>> => \A k \in Nucs :
+                   LET src == IF o.rep = "Median" THEN TempSources(<<members[R.src]>>, k) ELSE TempSources(cs, k)
+                   IN Cardinality(src) = 1 => R.ntemp[k] \in src
             /\ (\A i \in Idx(cs) : cs[i].bu = cs[1].bu) /\ (o.rep = "Median" \/ \E i \in Idx(cs) : cs[i].hm > 0) => R.bu = RInt(cs[1].bu)
 \* "unchanged by duplicating every member"
 \* (for the median option ties between different members are broken by name, so only the median weighted burnup
